@@ -296,6 +296,7 @@ class Sim:
     def hook_p(self, label, hname):
         return self.cfg["p_hook"]
 
+    state_hook_arg = None
     replay_hook_failed = frozenset()  # (families that inject should_replay failures install a set)
 
     def hook_raise_p(self, label, hname):
